@@ -20,6 +20,11 @@ theorem tie_h_cron_parseSchedules : Extracted.Cron.h_cron_parseSchedules = Canon
 theorem tie_h_cron_parseScheduleMap : Extracted.Cron.h_cron_parseScheduleMap = Canon.Cron.h_cron_parseScheduleMap := by decide +kernel
 theorem tie_h_cron_ParseTime : Extracted.Cron.h_cron_ParseTime = Canon.Cron.h_cron_ParseTime := by decide +kernel
 theorem tie_h_cron_parseCron : Extracted.Cron.h_cron_parseCron = Canon.Cron.h_cron_parseCron := by decide +kernel
+theorem tie_h_rest_cron_scheduler_scheduler_go : Extracted.Cron.h_rest_cron_scheduler_scheduler_go = Canon.Cron.h_rest_cron_scheduler_scheduler_go := by decide +kernel
+theorem tie_h_rest_cron_scheduler_job_go : Extracted.Cron.h_rest_cron_scheduler_job_go = Canon.Cron.h_rest_cron_scheduler_job_go := by decide +kernel
+theorem tie_h_rest_cron_scheduler_entryreader_go : Extracted.Cron.h_rest_cron_scheduler_entryreader_go = Canon.Cron.h_rest_cron_scheduler_entryreader_go := by decide +kernel
+theorem tie_h_rest_cron_persistence_local_flag_store_go : Extracted.Cron.h_rest_cron_persistence_local_flag_store_go = Canon.Cron.h_rest_cron_persistence_local_flag_store_go := by decide +kernel
+theorem tie_h_rest_cron_persistence_local_storage_storage_go : Extracted.Cron.h_rest_cron_persistence_local_storage_storage_go = Canon.Cron.h_rest_cron_persistence_local_storage_storage_go := by decide +kernel
 
 #print axioms tie_h_cron_run
 #print axioms tie_h_cron_nextTick
@@ -38,5 +43,10 @@ theorem tie_h_cron_parseCron : Extracted.Cron.h_cron_parseCron = Canon.Cron.h_cr
 #print axioms tie_h_cron_parseScheduleMap
 #print axioms tie_h_cron_ParseTime
 #print axioms tie_h_cron_parseCron
+#print axioms tie_h_rest_cron_scheduler_scheduler_go
+#print axioms tie_h_rest_cron_scheduler_job_go
+#print axioms tie_h_rest_cron_scheduler_entryreader_go
+#print axioms tie_h_rest_cron_persistence_local_flag_store_go
+#print axioms tie_h_rest_cron_persistence_local_storage_storage_go
 
 end BdModel.Tie.Cron
